@@ -70,7 +70,7 @@ def run(ctx):
 
 
 def replay(ctx, rep):
-    sc.replay_case(ctx, rep, CLAUSES)
+    sc.replay_case(ctx, rep, CLAUSES, extra_sig=xsig)
 
 
 if __name__ == "__main__":
